@@ -97,6 +97,17 @@ Example C24_mixed_example :
    Ok (RList [[49]; [49]]); Ok (RList []); Ok (ROpt (Some [50]))].
 Proof. vm_compute. reflexivity. Qed.
 
+(* ---- lazy value arguments.  Suber / IoSuber / IoSetSuber turn the caller's iterable of values
+   into the list of serialised values BEFORE they call into Duror, i.e. the argument is evaluated
+   before the operation has any effect: an argument that raises while it is consumed ([ORaise])
+   leaves every store as it is, and an argument computed from the store's own content (a
+   generator over get/getIter of the same or another key) is the value it had BEFORE the call, so
+   such a call is the plain op with that value and the theorems above apply (the harness
+   resolves it that way for the model). ---- *)
+Theorem C24_raising_argument_no_effect : forall kd d k e, step kd d (ORaise k e) = (d, Exc e).
+Proof. intros [] d k e; reflexivity. Qed.
+Print Assumptions C24_raising_argument_no_effect.
+
 (* ---- the full statement is false (D27) ---- *)
 Definition kk : bytes := [107].                                   (* "k" *)
 Definition kk0 : bytes := 107 :: 46 :: repeat 48 32.              (* "k." ++ "0"*32 *)
